@@ -116,6 +116,11 @@ func runHarness(ld *Loaded, fn *ssa.Function, cfg *RunConfig) (h *HarnessRun, e 
 	st.pc = nil
 	e.stats.Instrs = 0
 	outs := e.callFunction(st, fn, nil, nil, 0)
+	for k := range e.stats.Stubs {
+		if strings.HasPrefix(k, "override:") {
+			h.UsedOverrides = true
+		}
+	}
 	for _, o := range outs {
 		e.finishPath(o.st, o.panicked)
 	}
